@@ -40,7 +40,8 @@ ASSUMPTIONS = [
     "the set that starts in that cycle -- not claimed otherwise",
     "detector R tie: explicit alphabets (per configuration, 50-70 words): valid x {each set word with right / wrong ctrl, with a "
     "flipped data bit, word 1 with 7 different configuration symbols, three foreign words}; random words: correspondence only",
-    "emitter R tie: ALL inputs (start, ready, three request bits), at TS1 x16 and TS2 x16 (the bursts LUNA uses) and small bursts; "
+    "emitter R tie: ALL inputs (start, ready, three request bits), at TS1 x16 and TS2 x16 (the bursts LUNA uses) and small bursts incl. "
+    "non-powers-of-two (TS1 x3 quick; TS2 x6, TS1 x5 thorough: the set counter must not be sized for powers of two only); "
     "TSEQ at burst 64 (quick) / 300 (thorough) instead of LUNA's 65536 (covered by the parametric theorem only)",
     "emitter config bits are not latched: word 1 carries the request inputs of the cycle in which it is offered (as in the code)",
 ]
@@ -94,11 +95,12 @@ def mk_em(setname, n, cfg, big=False):
 def targets(tier):
     ts = [mk_det("ts1", 2, False), mk_det("ts2", 2, True), mk_det("ts2", 1, True), mk_det("tseq", 3, False),
           mk_det("ts1", 8, False, big=True), mk_det("ts2", 8, True, big=True), mk_det("tseq", 32, False, big=True),
-          mk_em("ts1", 16, False), mk_em("ts2", 16, True), mk_em("ts2", 1, True), mk_em("tseq", 64, False)]
+          mk_em("ts1", 16, False), mk_em("ts2", 16, True), mk_em("ts2", 1, True), mk_em("tseq", 64, False),
+          mk_em("ts1", 3, False)]      # burst length that is not a power of two (counter width boundary)
     if tier != "quick":
         ts += [mk_det("ts1i", 3, False), mk_det("ts2", 3, True), mk_det("ts1", 1, False), mk_det("tseq", 2, False),
                mk_det("ts1i", 8, False, big=True),
-               mk_em("ts1", 3, False), mk_em("ts2", 2, True), mk_em("tseq", 300, False),
+               mk_em("ts2", 6, True), mk_em("ts1", 5, False), mk_em("ts2", 2, True), mk_em("tseq", 300, False),
                mk_em("tseq", 1000, False, big=True)]
     return ts
 
